@@ -616,6 +616,8 @@ Fixpoint udec_next (fuel : nat) (d : udecoder) (s : sink) : res (udecoder * sink
       match fill with
       | inr r => Ok r
       | inl (d1, s0) =>
+          (* a Read that returned (0, nil): read again, nothing is fed *)
+          if (zlen (ud_buf d1) =? 0) then udec_next f d1 s0 else
           match ufeed_until (ufeed_fuel (ud_p d1) (ud_buf d1)) (ud_p d1) s0 (ud_buf d1) with
           | Ok (UR p1 s1 rest done err) =>
               let d2 := {| ud_p := p1; ud_buf := rest; ud_script := ud_script d1; ud_bytesdec := ud_bytesdec d1 |} in
